@@ -323,6 +323,11 @@ def r2(ctx):
                     try:
                         kind, v = Mini(ctx.repo, m, {"self._supported_modes": [api_mode], "self.supported_modes": [api_mode]}, f.cls).value_at(f.node, {"mode": api_mode, "power_on": flag}, stop)
                     except Unsupported as ex:
+                        if "is not an atom" in str(ex) and "self." in str(ex):
+                            # the power argument is computed from object state the rule does not supply: it does not depend on
+                            # power_on alone
+                            got[flag] = f"<depends on object state: {ex}>"
+                            continue
                         raise AnalysisError(f"{m.relpath}: {clsname}.set_mode left the evaluable fragment: {ex}")
                     got[flag] = getattr(v, "name", repr(v)) if kind == "value" else f"<{kind}>"
                 ok = got == {False: "UNCHANGED", True: "TURN_ON"}
@@ -437,6 +442,44 @@ def _cond_under(c, is_ext: bool):
     return None
 
 
+def _header_fields(ctx, R, rm, gen):
+    """create_from_message evaluated by the checker's interpreter on a small grid (message id 0x1F and three others x three payload
+    lengths, consecutive calls on one factory): each header must carry to = 0x90 exactly for the extended id and 0x80 otherwise,
+    from = 0xB0, the message's own id and the given length - and keep them after the next header has been created (a factory that
+    hands out one re-used object lets a later message overwrite the header of one that is still queued)."""
+    from ..minieval import FakeObj, Mini, Unsupported
+
+    ci = rm.get_class("HeaderFactory")
+    init, cfm = ci.methods.get("__init__"), ci.methods.get("create_from_message")
+    ctx.require(init is not None and cfm is not None, f"{rm.relpath}: HeaderFactory.__init__/create_from_message vanished")
+    params = [a.arg for a in cfm.args.args][1:]
+    mini = Mini(ctx.repo, rm, {}, ci)
+    grid = [(0x1F, 6), (0x2A, 4), (0xC0, 0), (0x1F, 0), (0x2B, 300), (0x2C, 4)]
+    made = []
+    try:
+        mini.run(init.body, {})
+        for mid, ln in grid:
+            h = mini.function_value(cfm, {params[0]: FakeObj("Message", message_id=mid), params[1]: ln})
+            made.append((mid, ln, h, dict(h.__dict__) if isinstance(h, FakeObj) else None))
+    except Unsupported as ex:
+        raise AnalysisError(f"{rm.relpath}: HeaderFactory left the evaluable fragment: {ex}")
+    bad = {"to_address": [], "from_address": [], "message_id": [], "message_length": []}
+    for mid, ln, h, snap in made:
+        if snap is None:
+            for k in bad:
+                bad[k].append(f"id 0x{mid:X}: returns {h!r}")
+            continue
+        want = {"to_address": 0x90 if mid == 0x1F else 0x80, "from_address": 0xB0, "message_id": mid, "message_length": ln}
+        for k, w in want.items():
+            if snap.get(k) != w:
+                bad[k].append(f"message id 0x{mid:X}, length {ln}: {k} = {snap.get(k)!r}")
+    labels = {"to_address": "0x90 exactly when message.message_id == 0x1F (extended), otherwise 0x80", "from_address": "0xB0 (client)", "message_id": "message.message_id", "message_length": "message_length"}
+    for k in ("from_address", "to_address", "message_id", "message_length"):
+        ctx.check(not bad[k], R, f"{gen}:header:{k}", rm, cfm, labels[k], "; ".join(bad[k][:3]))
+    stale = [f"header of message 0x{mid:X} now reads {({k: v for k, v in h.__dict__.items() if k != '_cls'})}" for mid, ln, h, snap in made if snap is not None and dict(h.__dict__) != snap]
+    ctx.check(not stale, R, f"{gen}:header:own-object", rm, cfm, "a header keeps its own address, id and length after later headers were created (it is held by the pending queue until written)", "; ".join(stale[:2]))
+
+
 def r4(ctx):
     R = "C04.R4"
     for gen in ("at4", "at5"):
@@ -449,22 +492,8 @@ def r4(ctx):
             v = ctx.repo.try_fold(mm, mm.get_const_expr("MESSAGE_ID"))
             ctx.check(v == want, R, f"{gen}:{mod}.MESSAGE_ID", mm, mm.assign_nodes["MESSAGE_ID"], f"0x{want:X}", f"0x{v:X}" if isinstance(v, int) else repr(v))
         rm = ctx.repo.module(f"pyairtouch.{gen}.comms.registry")
-        f = Fn(ctx.repo, rm, "HeaderFactory.create_from_message")
         ctx.fn(rm, "HeaderFactory.create_from_message")
-        hcls = "At4Header" if gen == "at4" else "At5Header"
-        cons = f.calls(hcls)
-        ctx.require(len(cons) == 1, f"{rm.relpath}: create_from_message does not build one {hcls}")
-        n, c = cons[0]
-        kw = {k.arg: k.value for k in c.keywords}
-        fa = ctx.repo.try_fold(rm, f.expand(kw["from_address"], n)) if "from_address" in kw else None
-        ctx.check(fa == 0xB0, R, f"{gen}:header:from_address", rm, c, "0xB0 (client)", repr(fa))
-        # to_address as a function of the message id: abstract evaluation of the method (if / conditional expression / case
-        # table / helper - whatever spelling) must give 0x90 exactly under `message.message_id == 0x1F` and 0x80 otherwise
-        ok, found = _to_address_choice(ctx, rm, gen)
-        ctx.check(ok, R, f"{gen}:header:to_address", rm, c, "0x90 exactly when message.message_id == 0x1F (extended), otherwise 0x80", found)
-        for fld, want in (("message_id", f"{f.params[1]}.message_id"), ("message_length", f.params[2])):
-            v = kw.get(fld)
-            ctx.check(v is not None and f.expand_text(v, n) == want, R, f"{gen}:header:{fld}", rm, c, want, f.expand_text(v, n) if v is not None else "missing")
+        _header_fields(ctx, R, rm, gen)
     # wrapper ids on the wire
     for gen in ("at4", "at5"):
         xm = ctx.repo.module(f"pyairtouch.{gen}.comms.x1F_ext")
